@@ -173,6 +173,10 @@ func (t *Tpl) writeNode(w io.Writer, node *node, ctx *Ctx) (err error) {
 			err = ctx.Err
 			return
 		}
+		if typedNil(raw) {
+			// A nil pointer of any type is a nil value - for the modifiers as well.
+			raw = nil
+		}
 		ctx.noesc = node.noesc
 		// Process modifiers.
 		if n := len(node.mod); n > 0 {
@@ -221,8 +225,8 @@ func (t *Tpl) writeNode(w io.Writer, node *node, ctx *Ctx) (err error) {
 		if ctx.Err != nil {
 			return
 		}
-		if raw == nil || raw == "" || typedNil(raw) {
-			// Variable doesn't exist or empty (a nil pointer of any type included). Do nothing.
+		if raw == nil || raw == "" {
+			// Variable doesn't exist or empty. Do nothing.
 			return
 		}
 		// Convert modified data to bytes array.
